@@ -520,12 +520,12 @@ func c11Run(b *core.B) {
 
 func init() {
 	core.Register(&core.Prop{
-		ID:    "C11",
-		Level: "exploration",
-		Rule: "data graphs of one struct family (string, []string, map[string]string, []Node, []*Node, *Node, [2]Leaf, map[string]Node, map[int]*Node, interface, unexported field; value and pointer methods) in which every leaf string spells its own Go path, nil pointers and missing keys sprinkled in; paths = walks of the type graph from 4 roots (value, pointer, slice, map) over field / index (literal, variable, computed) / map key (literal, variable) / method steps incl. unknown, unexported, out-of-range and missing-key steps: exhaustive to length 4, random to length 8; used in an output tag, a let then output, an if condition, and as loop iterable. Oracle: the same steps walked in Go by reflection; success -> the rendered text must be that leaf; failure -> error or empty output. Non-trivial = every judged path (distinct by template hash).",
-		Assume:  []string{"fixture methods are total; PLabel on a nil pointer returns the empty string so that both readings of 'nil pointer' agree", "paths ending in a non-leaf value (struct, map, slice of structs) are not judged in output position"},
-		Batches: batchesQT(16, 32),
-		Run:     c11Run,
+		ID:         "C11",
+		Level:      "exploration",
+		Rule:       "data graphs of one struct family (string, []string, map[string]string, []Node, []*Node, *Node, [2]Leaf, map[string]Node, map[int]*Node, interface, unexported field; value and pointer methods) in which every leaf string spells its own Go path, nil pointers and missing keys sprinkled in; paths = walks of the type graph from 4 roots (value, pointer, slice, map) over field / index (literal, variable, computed) / map key (literal, variable) / method steps incl. unknown, unexported, out-of-range and missing-key steps: exhaustive to length 4, random to length 8; used in an output tag, a let then output, an if condition, and as loop iterable. Oracle: the same steps walked in Go by reflection; success -> the rendered text must be that leaf; failure -> error or empty output. Non-trivial = every judged path (distinct by template hash).",
+		Assume:     []string{"fixture methods are total; PLabel on a nil pointer returns the empty string so that both readings of 'nil pointer' agree", "paths ending in a non-leaf value (struct, map, slice of structs) are not judged in output position"},
+		Batches:    batchesQT(16, 32),
+		Run:        c11Run,
 		Exhaustive: func(core.Tier) bool { return true },
 	})
 }
